@@ -12,16 +12,16 @@ SRC = "/repo/src"
 # function (qualified) -> properties whose checks should notice a semantic change there
 TARGETS = {
  "paho/mqtt/client.py": {
-  "Client._packet_write": ["C06"], "Client._packet_queue": ["C06", "C10"], "Client.loop_write": ["C06", "C16"],
-  "Client.loop_read": ["C10", "C05"], "Client.loop_misc": ["C08", "C10"], "Client._check_keepalive": ["C08"],
+  "Client._packet_write": ["C06"], "Client._packet_queue": ["C06", "C10", "C07", "C18"], "Client.loop_write": ["C06", "C16"],
+  "Client.loop_read": ["C10", "C05"], "Client.loop_misc": ["C08", "C10"], "Client._check_keepalive": ["C08", "C10"],
   "Client._packet_read": ["C05"], "Client._packet_handle": ["C05", "C10"],
   "Client.reconnect": ["C10", "C16", "C01"], "Client.disconnect": ["C10", "C09"],
   "Client._sock_close": ["C16", "C10"], "Client._loop_rc_handle": ["C10"], "Client._do_on_disconnect": ["C10"],
-  "Client._handle_connack": ["C01", "C02", "C10"], "Client._handle_pubrec": ["C02", "C01"],
-  "Client._handle_pubackcomp": ["C01", "C12"], "Client._do_on_publish": ["C01", "C12"],
+  "Client._handle_connack": ["C01", "C02", "C10", "C05"], "Client._handle_pubrec": ["C02", "C01", "C05"],
+  "Client._handle_pubackcomp": ["C01", "C12", "C05"], "Client._do_on_publish": ["C01", "C12"],
   "Client._update_inflight": ["C12", "C13"], "Client._messages_reconnect_reset_out": ["C01", "C02", "C12"],
   "Client._messages_reconnect_reset_in": ["C03"], "Client._handle_publish": ["C03", "C05"],
-  "Client._handle_pubrel": ["C03"], "Client.ack": ["C03"], "Client.publish": ["C01", "C12", "C19", "C14"],
+  "Client._handle_pubrel": ["C03", "C05"], "Client.ack": ["C03"], "Client.publish": ["C01", "C12", "C19", "C14"],
   "Client._mid_generate": ["C14"], "Client._send_publish": ["C04", "C02"], "Client._send_connect": ["C04"],
   "Client._send_subscribe": ["C04"], "Client._send_unsubscribe": ["C04"], "Client._pack_remaining_length": ["C04"],
   "Client._pack_str16": ["C04"], "Client._send_simple_command": ["C04"], "Client._send_command_with_mid": ["C04", "C03"],
@@ -63,12 +63,19 @@ def functions(tree):
 
 def is_log(node):
     s = ast.unparse(node)
-    return "_easy_log" in s or "logger" in s or "warnings.warn" in s
+    return "_easy_log" in s or "logger" in s or "warnings.warn" in s or s.startswith("on_") and "= cast(" in s
 
 
 def mutants_of(fn, src_lines):
     """yield (description, lineno, col, end_lineno, end_col, replacement) for single-line expression/statement edits"""
+    skip = set()
     for node in ast.walk(fn):
+        if isinstance(node, ast.Call) and is_log(node):
+            for sub in ast.walk(node):
+                skip.add(id(sub))
+    for node in ast.walk(fn):
+        if id(node) in skip:
+            continue
         if isinstance(node, (ast.If, ast.While)) and node.test.lineno == node.test.end_lineno:
             t = node.test
             yield ("negate condition", t, f"(not ({ast.unparse(t)}))")
@@ -80,6 +87,8 @@ def mutants_of(fn, src_lines):
             yield ("and <-> or", node, f"({ast.unparse(new)})")
         if isinstance(node, ast.Constant) and isinstance(node.value, bool):
             yield (f"{node.value} -> {not node.value}", node, str(not node.value))
+        if isinstance(node, ast.While) and isinstance(node.test, ast.Constant):
+            skip.add(id(node.test))
         if isinstance(node, ast.Constant) and isinstance(node.value, int) and not isinstance(node.value, bool) and 0 <= node.value <= 70000:
             yield (f"{node.value} -> {node.value + 1}", node, str(node.value + 1))
         if isinstance(node, (ast.Assign, ast.AugAssign, ast.Expr, ast.Return)) and not is_log(node):
@@ -88,7 +97,10 @@ def mutants_of(fn, src_lines):
             if isinstance(node, ast.Return):
                 if node.value is None:
                     continue
-                yield ("return value dropped -> return MQTT_ERR_SUCCESS/None", node, "return None" if "MQTTErrorCode" not in ast.unparse(node) else "return MQTTErrorCode.MQTT_ERR_SUCCESS")
+                txt = ast.unparse(node)
+                if txt in ("return MQTTErrorCode.MQTT_ERR_SUCCESS", "return None"):
+                    continue
+                yield ("return value dropped -> return MQTT_ERR_SUCCESS/None", node, "return None" if "MQTTErrorCode" not in txt else "return MQTTErrorCode.MQTT_ERR_SUCCESS")
             else:
                 yield ("statement removed", node, "pass")
 
